@@ -21,6 +21,8 @@ fn main() {
     let code = match args[1].as_str() {
         "pipeline" => cmd_pipeline(&args[2..]),
         "challenger" => cmd_challenger(&args[2..]),
+        "gadgets" => p3r_verif_harness::gadgets::cmd(&args[2..]),
+        "gadgets-gen" => p3r_verif_harness::gadgets::cmd_gen(&args[2..]),
         "symbolic" => cmd_symbolic(&args[2..]),
         "symbolic-gen" => cmd_symbolic_gen(&args[2..]),
         "mmcs" => cmd_mmcs(&args[2..]),
